@@ -29,8 +29,8 @@ sys.path.insert(0, ROOT)
 sys.setswitchinterval(1e-6 if False else 0.005)
 
 JOBS       = int(os.environ.get('VERIF_JOBS', '16'))
-REPLAYS    = os.path.join(ROOT, 'replays')
-EVIDENCE   = os.path.join(ROOT, 'evidence')
+REPLAYS    = os.environ.get('VERIF_REPLAYS') or os.path.join(ROOT, 'replays')
+EVIDENCE   = os.environ.get('VERIF_EVIDENCE') or os.path.join(ROOT, 'evidence')
 KNOWN_FILE = os.path.join(ROOT, 'known_findings.json')
 
 CHECKS = {
@@ -41,6 +41,7 @@ CHECKS = {
     'C07': 'dst.checks.c07',
     'C08': 'dst.checks.c08',
     'C06': 'dst.checks.c06',
+    'C12': 'dst.checks.c12',
     'C13': 'dst.checks.c13',
     'C14': 'dst.checks.c14',
     'C15': 'dst.checks.c15',
@@ -449,6 +450,23 @@ def main(argv):
             return replay(prop, argv[i + 1])
         elif argv[i] == '--seeds':
             nseeds = int(argv[i + 1]); i += 2
+        elif argv[i] == '--mkreplay':
+            # write a minimised replay of the first violation of one seed
+            mod  = load(prop)
+            seed = int(argv[i + 1])
+            out  = run_seed(mod, seed, tier)
+            if not out['sigs']:
+                print('no violation at seed %d' % seed)
+                return 2
+            sig = out['sigs'][0]
+            sc, sd = minimise(mod, seed, tier, out['scenario'], sig)
+            global REPLAYS
+            path, _ = write_replay(prop, sig, sd, tier, mod, sc)
+            if len(argv) > i + 2:
+                os.replace(path, argv[i + 2])
+                path = argv[i + 2]
+            print('wrote', path, sig)
+            return 0
         elif argv[i] == '--one':
             mod = load(prop)
             out = run_seed(mod, int(argv[i + 1]), tier, keep=True)
